@@ -247,6 +247,7 @@ fn typecheck_package(
         deps_envs,
     );
     diagnostics.append(&mut hir_diagnostics);
+    let hir_interface = hir_interface.with_method_bounds_of(&genv.fn_bounds);
     let exports = PackageExports {
         type_env: genv.type_env.clone(),
         trait_env: genv.trait_env.clone(),
@@ -569,7 +570,7 @@ pub fn typecheck_with_packages_and_results(
 
         let interface = PackageInterface {
             exports,
-            hir_interface,
+            hir_interface: hir_interface.with_method_bounds_of(&package_genv.fn_bounds),
         };
 
         if name == &graph.entry_package {
